@@ -499,6 +499,14 @@ pub fn check(tier_name: &str, base_seed: u64) -> Outcome {
         "C18 simulation: tier={} VERIF_SEED={} runs={} batch={} workers={}",
         t.name, base_seed, t.runs, t.batch, t.workers
     );
+    let seam_clock = crate::clock::selftest();
+    let seam_env = crate::envseam::selftest();
+    if !(seam_clock && seam_env) {
+        println!(
+            "note: seam self-test: clock={} environment={} (a seam that does not work only means the corresponding fault kind is not injected)",
+            seam_clock, seam_env
+        );
+    }
     let probe = crate::probe::send_sync_probe();
     println!(
         "static facet: Regex: Send={} Sync={}",
@@ -1101,6 +1109,7 @@ pub fn check(tier_name: &str, base_seed: u64) -> Outcome {
                 "wall_s": determinism_s,
             },
             "static_facet": { "send": probe.0, "sync": probe.1 },
+            "seam_selftests": { "clock_gettime_interposed": seam_clock, "getenv_interposed": seam_env },
             "path_purity": {
                 "explanation": "per call, the sequence of hook sites hit (the path through the library) is hashed; within one worker process the same request must always take the same path. A difference is not a C18 violation (results are compared separately) but shows history- or address-dependent behaviour; it is reported as a warning.",
                 "calls_that_took_another_path_than_the_same_request_earlier": a.path_impure,
